@@ -12,6 +12,7 @@ EXTENDS SchedPreds, Json, TLCExt
 TraceLog == ndJsonDeserialize("trace.ndjson")
 
 VARIABLES l, verdict,
+          fails,    \* failed predicates of the current trace: label -> line at which it first failed
           S,        \* last snapshot
           cfg,      \* configuration of the trace
           calls,    \* actor -> call event of calls in flight or finished
@@ -28,9 +29,11 @@ VARIABLES l, verdict,
           gone,     \* actors that were cancelled
           nonconf,  \* number of sections whose structure the model could not explain
           stats,    \* how often the interesting predicates were exercised (vacuity report)
+          insync,   \* workers with a Synchronize call past its first section and not yet returned
+          wlast,    \* worker -> scheduler time at which its last Synchronize call returned
           clock
 
-tvars == <<l, verdict, S, cfg, calls, stm, acc, requeue, route, lrnOf, sels, lrns, nsel, selOf, bgprio, gone, nonconf, stats, clock>>
+tvars == <<l, verdict, fails, S, cfg, calls, stm, acc, requeue, route, lrnOf, sels, lrns, nsel, selOf, bgprio, gone, nonconf, stats, insync, wlast, clock>>
 
 Line == TraceLog[l]
 IsEvent(e) == l <= Len(TraceLog) /\ Line.ev = e /\ l' = l + 1
@@ -51,10 +54,19 @@ FirstFail(checks) ==
 Upd(f, k, v) == (k :> v) @@ f
 Get(f, k, d) == IF k \in DOMAIN f THEN f[k] ELSE d
 
+\* Every failing predicate of a trace is collected (one property's failure
+\* must not hide a later failure of another property); the collected set is
+\* reported at the last line of the trace.
+NewFails(checks) ==
+  LET bad == {checks[i][2] : i \in {j \in DOMAIN checks : ~checks[j][1]}}
+  IN [lab \in DOMAIN fails \cup bad |-> IF lab \in DOMAIN fails THEN fails[lab] ELSE l]
+LastOfTrace == l = Len(TraceLog) \/ TraceLog[l + 1].ev = "reset"
+Conclude(nf) == IF LastOfTrace /\ DOMAIN nf # {} THEN "MULTI" ELSE "ok"
+
 TInit ==
-  /\ l = 1 /\ verdict = "ok" /\ S = EmptySnap /\ cfg = NoCfg /\ calls = EmptyFn /\ stm = EmptyFn
+  /\ l = 1 /\ verdict = "ok" /\ fails = EmptyFn /\ S = EmptySnap /\ cfg = NoCfg /\ calls = EmptyFn /\ stm = EmptyFn
   /\ acc = EmptyFn /\ requeue = EmptyFn /\ route = EmptyFn /\ lrnOf = EmptyFn /\ sels = EmptyFn
-  /\ lrns = EmptyFn /\ nsel = 0 /\ selOf = EmptyFn /\ bgprio = 0 /\ gone = {} /\ nonconf = 0 /\ clock = 0
+  /\ lrns = EmptyFn /\ nsel = 0 /\ selOf = EmptyFn /\ bgprio = 0 /\ gone = {} /\ nonconf = 0 /\ clock = 0 /\ insync = {} /\ wlast = EmptyFn
   /\ stats = [sections |-> 0, picks |-> 0, handoffs |-> 0, merged |-> 0, requeued |-> 0, background |-> 0,
               completed_by_worker |-> 0, completed_by_scheduler |-> 0, cleanups |-> 0, quiescent |-> 0, finals |-> 0, listings |-> 0, design_steps |-> 0]
 
@@ -62,39 +74,39 @@ Keep(vs) == UNCHANGED vs
 
 TReset ==
   /\ IsEvent("reset")
-  /\ verdict' = "ok" /\ S' = EmptySnap /\ cfg' = NoCfg /\ calls' = EmptyFn /\ stm' = EmptyFn
+  /\ verdict' = "ok" /\ fails' = EmptyFn /\ S' = EmptySnap /\ cfg' = NoCfg /\ calls' = EmptyFn /\ stm' = EmptyFn
   /\ acc' = EmptyFn /\ requeue' = EmptyFn /\ route' = EmptyFn /\ lrnOf' = EmptyFn /\ sels' = EmptyFn
-  /\ lrns' = EmptyFn /\ nsel' = 0 /\ selOf' = EmptyFn /\ bgprio' = 0 /\ gone' = {} /\ clock' = 0 /\ UNCHANGED <<nonconf, stats>>
+  /\ lrns' = EmptyFn /\ nsel' = 0 /\ selOf' = EmptyFn /\ bgprio' = 0 /\ gone' = {} /\ clock' = 0 /\ insync' = {} /\ wlast' = EmptyFn /\ UNCHANGED <<nonconf, stats>>
 
 TConfig ==
   /\ IsEvent("config")
   /\ cfg' = [update |-> Line.update, no_waiter |-> Line.no_waiter, queue |-> Line.queue, busy |-> Line.busy,
              idle |-> Line.idle, retry |-> Line.retry, worker |-> Line.worker]
-  /\ verdict' = "ok"
-  /\ UNCHANGED <<S, calls, stm, acc, requeue, route, lrnOf, sels, lrns, nsel, selOf, bgprio, gone, nonconf, stats, clock>>
+  /\ fails' = fails /\ verdict' = Conclude(fails)
+  /\ UNCHANGED <<S, calls, stm, acc, requeue, route, lrnOf, sels, lrns, nsel, selOf, bgprio, gone, nonconf, stats, insync, wlast, clock>>
 
 TPredeclare ==
   /\ IsEvent("predeclare")
   /\ bgprio' = Line.bg_prio
-  /\ verdict' = "ok"
-  /\ UNCHANGED <<S, cfg, calls, stm, acc, requeue, route, lrnOf, sels, lrns, nsel, selOf, gone, nonconf, stats, clock>>
+  /\ fails' = fails /\ verdict' = Conclude(fails)
+  /\ UNCHANGED <<S, cfg, calls, stm, acc, requeue, route, lrnOf, sels, lrns, nsel, selOf, gone, nonconf, stats, insync, wlast, clock>>
 
 TNoop ==
   /\ (IsEvent("phase") \/ IsEvent("fire"))
-  /\ verdict' = "ok"
-  /\ UNCHANGED <<S, cfg, calls, stm, acc, requeue, route, lrnOf, sels, lrns, nsel, selOf, bgprio, gone, nonconf, stats, clock>>
+  /\ fails' = fails /\ verdict' = Conclude(fails)
+  /\ UNCHANGED <<S, cfg, calls, stm, acc, requeue, route, lrnOf, sels, lrns, nsel, selOf, bgprio, gone, nonconf, stats, insync, wlast, clock>>
 
 TAdvance ==
   /\ IsEvent("advance")
   /\ clock' = Line.clock
-  /\ verdict' = "ok"
-  /\ UNCHANGED <<S, cfg, calls, stm, acc, requeue, route, lrnOf, sels, lrns, nsel, selOf, bgprio, gone, nonconf, stats>>
+  /\ fails' = fails /\ verdict' = Conclude(fails)
+  /\ UNCHANGED <<S, cfg, calls, stm, acc, requeue, route, lrnOf, sels, lrns, nsel, selOf, bgprio, gone, nonconf, stats, insync, wlast>>
 
 TCancel ==
   /\ IsEvent("cancel")
   /\ gone' = gone \cup {Line.actor}
-  /\ verdict' = "ok"
-  /\ UNCHANGED <<S, cfg, calls, stm, acc, requeue, route, lrnOf, sels, lrns, nsel, selOf, bgprio, nonconf, stats, clock>>
+  /\ fails' = fails /\ verdict' = Conclude(fails)
+  /\ UNCHANGED <<S, cfg, calls, stm, acc, requeue, route, lrnOf, sels, lrns, nsel, selOf, bgprio, nonconf, stats, insync, wlast, clock>>
 
 IsStream(kind) == kind \in {"execute", "wait"}
 
@@ -104,8 +116,8 @@ TCall ==
   /\ stm' = IF IsStream(Line.kind) THEN Upd(stm, Line.actor, [op |-> "", msgs |-> <<>>, rq |-> 0]) ELSE stm
   /\ nsel' = IF Line.kind = "execute" THEN nsel + 1 ELSE nsel
   /\ selOf' = IF Line.kind = "execute" THEN Upd(selOf, Line.actor, nsel + 1) ELSE selOf
-  /\ verdict' = "ok"
-  /\ UNCHANGED <<S, cfg, acc, requeue, route, lrnOf, sels, lrns, bgprio, gone, nonconf, stats, clock>>
+  /\ fails' = fails /\ verdict' = Conclude(fails)
+  /\ UNCHANGED <<S, cfg, acc, requeue, route, lrnOf, sels, lrns, bgprio, gone, nonconf, stats, insync, wlast, clock>>
 
 -----------------------------------------------------------------------------
 (* Messages sent to clients (C02, C03).                                    *)
@@ -124,7 +136,7 @@ TSend ==
          rqNow == Get(requeue, o.task, 0)
      IN
        /\ stm' = Upd(stm, a, [op |-> Line.op, msgs |-> Append(st.msgs, [stage |-> Line.stage, done |-> Line.done, token |-> Line.token, code |-> Line.code]), rq |-> rqNow])
-       /\ verdict' = FirstFail(<<
+       /\ fails' = NewFails(<<
             <<~prev.done, "C02:message-sent-after-done">>,
             <<n = 0 \/ st.op = Line.op, "C02:stream-switched-operation">>,
             <<known, "C02:message-for-unknown-operation">>,
@@ -135,7 +147,8 @@ TSend ==
                  (prev.stage = "E" /\ Line.stage = "Q" /\ rqNow > st.rq), "C02:stage-went-backwards">>,
             <<(known /\ Line.done) => (Line.token = t.resp /\ Line.code = t.code), "C02:final-message-differs-from-task-result">>
           >>)
-  /\ UNCHANGED <<S, cfg, calls, acc, requeue, route, lrnOf, sels, lrns, nsel, selOf, bgprio, gone, nonconf, stats, clock>>
+  /\ verdict' = Conclude(fails')
+  /\ UNCHANGED <<S, cfg, calls, acc, requeue, route, lrnOf, sels, lrns, nsel, selOf, bgprio, gone, nonconf, stats, insync, wlast, clock>>
 
 -----------------------------------------------------------------------------
 (* Call returns.                                                           *)
@@ -179,7 +192,9 @@ RetChecks ==
 
 TRet ==
   /\ IsEvent("ret")
-  /\ verdict' = FirstFail(RetChecks)
+  /\ fails' = NewFails(RetChecks) /\ verdict' = Conclude(fails')
+  /\ insync' = IF Line.kind = "sync" THEN insync \ {Line.owner} ELSE insync
+  /\ wlast' = IF Line.kind = "sync" /\ Line.owner \in insync THEN Upd(wlast, Line.owner, S.now) ELSE wlast
   /\ UNCHANGED <<S, cfg, calls, stm, acc, requeue, route, lrnOf, sels, lrns, nsel, selOf, bgprio, gone, nonconf, stats, clock>>
 
 -----------------------------------------------------------------------------
@@ -249,6 +264,16 @@ Accepted ==
 
 WorkerOfTaskDue(t) == t.stage = "E" /\ \E x \in DueWorkers : x[2].id = t.worker /\ x[1] = t.worker_queue + 1
 
+\* "The worker disappeared" is a true cause only if the worker has no
+\* Synchronize call in progress and its last one returned at least the
+\* worker time-out ago (computed from the observed call returns, not from
+\* the time-out the scheduler armed).
+WorkerReallyGone(t) ==
+  /\ t.stage = "E"
+  /\ t.worker \notin insync
+  /\ t.worker \in DOMAIN wlast
+  /\ Now2 >= wlast[t.worker] + cfg.worker
+
 TaskQueueIdx(s, t) == OpOf(s, t.ops[1]).queue + 1
 
 \* Queue removal: the queue of the task is due, or it becomes due in the
@@ -271,7 +296,7 @@ SchedulerMadeOK(id) ==
   \/ /\ p.code = 1                                   \* CANCELED: no waiting clients
      /\ OpsOfTaskDue(t)
   \/ /\ p.code = 14                                  \* UNAVAILABLE: worker vanished / queue removed
-     /\ (WorkerOfTaskDue(t) \/ QueueOfTaskDue(t))
+     /\ (WorkerReallyGone(t) \/ QueueOfTaskDue(t))
   \/ /\ p.code = 13                                  \* INTERNAL: retry limit
      /\ c.kind = "sync" /\ t.stage = "E" /\ t.worker = c.owner /\ t.retry >= cfg.retry
   \/ /\ c.kind = "kill" /\ p.code = c.code           \* operator
@@ -671,7 +696,7 @@ TSec ==
   /\ lrnOf' = NewLrnOf
   /\ sels' = NewSels
   /\ lrns' = NewLrns
-  /\ verdict' = FirstFail(SecChecks)
+  /\ fails' = NewFails(SecChecks) /\ verdict' = Conclude(fails')
   /\ nonconf' = IF NC_Structure(Post) THEN nonconf ELSE nonconf + 1
   /\ stats' = [stats EXCEPT
         !.sections = @ + 1,
@@ -683,7 +708,8 @@ TSec ==
         !.completed_by_worker = @ + Cardinality({id \in NewlyCompleted : TaskOf(Post, id).resp # ""}),
         !.completed_by_scheduler = @ + Cardinality({id \in NewlyCompleted : TaskOf(Post, id).resp = ""}),
         !.cleanups = @ + Cardinality(DueWorkers) + Cardinality(DueOps) + Cardinality(DueQueues)]
-  /\ UNCHANGED <<cfg, calls, stm, route, nsel, selOf, bgprio, gone, clock>>
+  /\ insync' = IF Call.kind = "sync" /\ Line.first THEN insync \cup {Call.owner} ELSE insync
+  /\ UNCHANGED <<cfg, calls, stm, route, nsel, selOf, bgprio, gone, wlast, clock>>
 
 -----------------------------------------------------------------------------
 (* Quiescence: nobody is blocked while their wake-up condition holds.      *)
@@ -709,13 +735,13 @@ ParkedChecks ==
 
 TQuiescent ==
   /\ IsEvent("quiescent")
-  /\ verdict' = FirstFail(ParkedChecks)
+  /\ fails' = NewFails(ParkedChecks) /\ verdict' = Conclude(fails')
   /\ stats' = [stats EXCEPT !.quiescent = @ + 1]
-  /\ UNCHANGED <<S, cfg, calls, stm, acc, requeue, route, lrnOf, sels, lrns, nsel, selOf, bgprio, gone, nonconf, clock>>
+  /\ UNCHANGED <<S, cfg, calls, stm, acc, requeue, route, lrnOf, sels, lrns, nsel, selOf, bgprio, gone, nonconf, insync, wlast, clock>>
 
 TFinal ==
   /\ IsEvent("final")
-  /\ verdict' = FirstFail(<<
+  /\ fails' = NewFails(<<
        <<Line.actors_left = 0, "C06:blocked-call-never-returned">>,
        <<Line.lock_free, "C14:scheduler-lock-left-behind">>,
        <<C06_Empty(S), "C06:state-retained-after-everybody-left">>,
@@ -723,8 +749,9 @@ TFinal ==
          "C07:learner-without-terminal-call">>,
        <<\A s \in DOMAIN sels : sels[s] = 1, "C07:selector-without-call">>
      >>)
+  /\ verdict' = Conclude(fails')
   /\ stats' = [stats EXCEPT !.finals = @ + 1]
-  /\ UNCHANGED <<S, cfg, calls, stm, acc, requeue, route, lrnOf, sels, lrns, nsel, selOf, bgprio, gone, nonconf, clock>>
+  /\ UNCHANGED <<S, cfg, calls, stm, acc, requeue, route, lrnOf, sels, lrns, nsel, selOf, bgprio, gone, nonconf, insync, wlast, clock>>
 
 
 -----------------------------------------------------------------------------
@@ -787,10 +814,10 @@ TListing ==
   /\ LET checks == ListingChecks
          hard == SelectSeq(checks, LAMBDA c : SubSeq(c[2], 1, 3) # "NC:")
          soft == SelectSeq(checks, LAMBDA c : SubSeq(c[2], 1, 3) = "NC:" /\ ~c[1])
-     IN /\ verdict' = FirstFail(hard)
+     IN /\ fails' = NewFails(hard) /\ verdict' = Conclude(fails')
         /\ nonconf' = nonconf + Len(soft)
   /\ stats' = [stats EXCEPT !.listings = @ + 1]
-  /\ UNCHANGED <<S, cfg, calls, stm, acc, requeue, route, lrnOf, sels, lrns, nsel, selOf, bgprio, gone, clock>>
+  /\ UNCHANGED <<S, cfg, calls, stm, acc, requeue, route, lrnOf, sels, lrns, nsel, selOf, bgprio, gone, insync, wlast, clock>>
 
 \* Spec -> code replay: the abstract state the design model expects after an
 \* action, compared with the real snapshot. The design leaves the choice
@@ -798,20 +825,21 @@ TListing ==
 \* replay (counted), never a verdict.
 TDesign ==
   /\ IsEvent("design")
-  /\ verdict' = "ok"
+  /\ fails' = fails /\ verdict' = Conclude(fails)
   /\ LET agree == \A t \in Tasks(S) :
                     t.id \in DOMAIN Line.stages =>
                       (Line.stages[t.id] = t.stage /\ Line.workers[t.id] = t.worker)
      IN nonconf' = IF Line.done /\ agree THEN nonconf ELSE nonconf + 1
   /\ stats' = [stats EXCEPT !.design_steps = @ + 1]
-  /\ UNCHANGED <<S, cfg, calls, stm, acc, requeue, route, lrnOf, sels, lrns, nsel, selOf, bgprio, gone, clock>>
+  /\ UNCHANGED <<S, cfg, calls, stm, acc, requeue, route, lrnOf, sels, lrns, nsel, selOf, bgprio, gone, insync, wlast, clock>>
 
 \* The real code panicked, or stopped making progress in the middle of a
 \* step (for instance a loop that never ends inside a critical section).
 TPanic ==
   /\ (IsEvent("panic") \/ IsEvent("stall"))
-  /\ verdict' = IF Line.ev = "panic" THEN "PANIC:scheduler-panicked" ELSE "PANIC:scheduler-stopped-making-progress"
-  /\ UNCHANGED <<S, cfg, calls, stm, acc, requeue, route, lrnOf, sels, lrns, nsel, selOf, bgprio, gone, nonconf, stats, clock>>
+  /\ fails' = NewFails(<< <<FALSE, IF Line.ev = "panic" THEN "PANIC:scheduler-panicked" ELSE "PANIC:scheduler-stopped-making-progress">> >>)
+  /\ verdict' = Conclude(fails')
+  /\ UNCHANGED <<S, cfg, calls, stm, acc, requeue, route, lrnOf, sels, lrns, nsel, selOf, bgprio, gone, nonconf, stats, insync, wlast, clock>>
 
 TNext == TDesign \/ TListing \/ TPanic \/ TReset \/ TConfig \/ TPredeclare \/ TNoop \/ TAdvance \/ TCancel \/ TCall \/ TSend \/ TRet \/ TSec \/ TQuiescent \/ TFinal
 
